@@ -1,4 +1,5 @@
 import I2P.Alias
+import I2P.Proofs.HistoryLemmas
 /-! # C08 — parsed values do not share memory with the caller's buffer (model half)
 
 Memory sharing is not a property of byte values, so a pure model cannot *discover* it; what the model does is
@@ -35,6 +36,36 @@ example : ∃ (k : KeysAndCert) (buf buf' : Bytes),
     observeAll buf (kacFieldsBeforeD07 k) ≠ observeAll buf' (kacFieldsBeforeD07 k) := by
   refine ⟨{ kc := { cert := { kind := [0], len := [0, 0], payload := [] }, spk := 7, cpk := 0 }, pub := [], padding := [], sig := [] },
     List.replicate 384 1, List.replicate 384 2, ?_⟩
+  decide
+
+/-! ### histories (second sentence of C08; the `!history` operation is the tie)
+
+`History.lean`: the caller may overwrite the input buffer and whatever an accessor handed out, any number of
+times. Which accessors are copies is a fact about the Go code, recorded in the harness (`documentedCopies` and the
+serialisers in `ops_history.go`, each with the doc comment that promises the copy) and checked on the real library
+by overwriting every such result — contents and spare capacity — on every kind and constructor path. -/
+
+/-- for every history: a value without views, all of whose accessors the caller writes through are copies, reports
+    the same bytes after any sequence of overwrites of the input buffer and of returned slices -/
+theorem history_independent (s : History.State) (h : List History.Step)
+    (hv : noViews s.fields = true) (hc : History.copiesOnly h = true) :
+    (History.run s h).observe = s.observe := by
+  unfold History.State.observe
+  rw [History.run_fields_of_copiesOnly s h hc]
+  exact no_views_buffer_independent s.fields hv _ _
+
+/-- instance: a parsed KeysAndCert / Destination / RouterIdentity under any history that uses copy accessors only -/
+theorem kac_history_independent (k : KeysAndCert) (buf : Bytes) (h : List History.Step)
+    (hc : History.copiesOnly h = true) :
+    (History.run ⟨buf, kacFields k⟩ h).observe = (⟨buf, kacFields k⟩ : History.State).observe :=
+  history_independent _ h (kac_no_views k) hc
+
+/-- non-vacuity / regression witness (D40): with an accessor that shares the padding — `AsDestination` before its
+    repair handed out the identity's own padding slice — one write through the result changes what the value reports -/
+example : ∃ (k : KeysAndCert) (buf : Bytes) (h : List History.Step),
+    (History.run ⟨buf, kacFields k⟩ h).observe ≠ (⟨buf, kacFields k⟩ : History.State).observe := by
+  refine ⟨{ kc := { cert := { kind := [5], len := [0, 4], payload := [0, 7, 0, 4] }, spk := 7, cpk := 4 }, pub := [1], padding := [9, 9], sig := [2] },
+    [], [.writeResult (.share 1) (fun b => b.map (· ^^^ 0xFF))], ?_⟩
   decide
 
 end I2P.Props.C08
